@@ -438,4 +438,218 @@ theorem cpl_directives (c : Bool) (n : Nat) (ts o : List Tok) (hok : TsOK ts) (h
   rintro ws a' ⟨rfl, rfl⟩
   exact ⟨by simpa using hz, hσ⟩
 
+/-! ### types -/
+
+theorem inv_namedType {ts o : List Tok} (h : D (.nt .namedType) ts o) : ∃ n, ts = [tName n] ∧ o = [tName n] :=
+  name_inv h.nt_inv
+
+theorem inv_listType {ts o : List Tok} (h : D (.nt .listType) ts o) (hok : TsOK ts) :
+    ∃ te oe, ts = tP .bracketL :: te ++ [tP .bracketR] ∧ o = tP .bracketL :: oe ++ [tP .bracketR] ∧ D (.nt .typ) te oe := by
+  obtain ⟨t1, t2, o1, o2, rfl, rfl, d1, d2⟩ := h.nt_inv.seq_inv'
+  obtain ⟨t3, t4, o3, o4, rfl, rfl, d3, d4⟩ := d2.seq_inv'
+  obtain ⟨rfl, rfl⟩ := punct_inv d1 hok.left rfl
+  obtain ⟨rfl, rfl⟩ := punct_inv d4 hok.right.right rfl
+  exact ⟨t3, o3, by simp, by simp, d3⟩
+
+/-- the shapes of a `Type` sentence -/
+theorem inv_type {ts o : List Tok} (h : D (.nt .typ) ts o) (hok : TsOK ts) :
+    (∃ nm nn, ts = tName nm :: bangIf nn ∧ o = tName nm :: bangIf nn) ∨
+    (∃ te oe nn, ts = tP .bracketL :: te ++ tP .bracketR :: bangIf nn ∧ o = tP .bracketL :: oe ++ tP .bracketR :: bangIf nn ∧
+      D (.nt .typ) te oe) := by
+  rcases h.nt_inv.alt_inv with h | h
+  · obtain ⟨n, rfl, rfl⟩ := inv_namedType h
+    exact .inl ⟨n, false, rfl, rfl⟩
+  rcases h.alt_inv with h | h
+  · obtain ⟨te, oe, rfl, rfl, d⟩ := inv_listType h hok
+    exact .inr ⟨te, oe, false, by simp [bangIf], by simp [bangIf], d⟩
+  · rcases h.nt_inv.alt_inv with h | h
+    · obtain ⟨t1, t2, o1, o2, rfl, rfl, d1, d2⟩ := h.seq_inv'
+      obtain ⟨n, rfl, rfl⟩ := inv_namedType d1
+      obtain ⟨rfl, rfl⟩ := punct_inv d2 hok.right rfl
+      exact .inl ⟨n, true, rfl, rfl⟩
+    · obtain ⟨t1, t2, o1, o2, rfl, rfl, d1, d2⟩ := h.seq_inv'
+      obtain ⟨te, oe, rfl, rfl, d⟩ := inv_listType d1 hok.left
+      obtain ⟨rfl, rfl⟩ := punct_inv d2 hok.right rfl
+      exact .inr ⟨te, oe, true, by simp [bangIf], by simp [bangIf], d⟩
+
+/-- `Type`; what follows is never `!` -/
+theorem cpl_type : ∀ (n : Nat) (ts o : List Tok), TsOK ts → D (.nt .typ) ts o → ∀ (a : AS) (σ' : Stream), Starts a.σ ts σ' →
+    σ'.head.kind ≠ .bang → Fwd (parseTypeReference n) a (fun ty a' => printType ty = o ∧ a'.σ = σ')
+  | 0, _, _, _, _, _, _, _, _ => Fwd.outOfFuel _ _ _
+  | n + 1, ts, o, hok, hd, a, σ', hs, hfol => by
+    rcases inv_type hd hok with ⟨nm, nn, rfl, rfl⟩ | ⟨te, oe, nn, rfl, rfl, de⟩
+    · obtain ⟨σ1, h1, h2⟩ := hs.cons_single
+      unfold parseTypeReference
+      refine Fwd.bind (fwd_skipP_no .bracketL (by rw [hs.head_kind]; simp [tName])) ?_
+      rintro b a1 ⟨rfl, hσ1⟩
+      refine Fwd.ite_neg (by simp) (Fwd.bind (fwd_peekPos _) ?_)
+      rintro pos a2 rfl
+      refine Fwd.bind (fwd_parseName nm (by rw [hσ1]; exact h1)) ?_
+      rintro x a3 ⟨rfl, hσ3⟩
+      cases nn with
+      | true =>
+        simp only [bangIf, if_true] at h2
+        refine Fwd.bind (fwd_skipP_yes .bang (by rw [hσ3]; exact h2)) ?_
+        rintro b a4 ⟨rfl, hσ4⟩
+        exact (Fwd.pure _ _).mono fun _ _ h => ⟨by rw [h.1]; rfl, by rw [h.2, hσ4]⟩
+      | false =>
+        simp only [bangIf, Bool.false_eq_true, if_false] at h2
+        rw [Starts.nil_iff] at h2
+        refine Fwd.bind (fwd_skipP_no .bang (by rw [hσ3, h2]; exact hfol)) ?_
+        rintro b a4 ⟨rfl, hσ4⟩
+        exact (Fwd.pure _ _).mono fun _ _ h => ⟨by rw [h.1]; rfl, by rw [h.2, hσ4, hσ3, h2]⟩
+    · obtain ⟨σ1, h1, hs2⟩ := hs.cons_single
+      replace hs2 : Starts σ1 (te ++ (tP .bracketR :: bangIf nn)) σ' := hs2
+      rw [Starts.append_iff] at hs2
+      obtain ⟨σ2, he, hs3⟩ := hs2
+      obtain ⟨σ3, h3, h4⟩ := hs3.cons_single
+      have hoke : TsOK te := hok.tail.left
+      unfold parseTypeReference
+      refine Fwd.bind (fwd_skipP_yes .bracketL h1) ?_
+      rintro b a1 ⟨rfl, hσ1⟩
+      refine Fwd.ite_pos rfl (Fwd.bind (fwd_peekPos _) ?_)
+      rintro pos a2 rfl
+      refine Fwd.bind (cpl_type n te oe hoke de _ σ2 (by rw [hσ1]; exact he) (by rw [h3.head_kind]; simp [tP])) ?_
+      rintro e' a3 ⟨he', hσ3⟩
+      refine Fwd.bind (fwd_punct .bracketR (by rw [hσ3]; exact h3)) ?_
+      rintro _ a4 hσ4
+      cases nn with
+      | true =>
+        simp only [bangIf, if_true] at h4
+        refine Fwd.bind (fwd_skipP_yes .bang (by rw [hσ4]; exact h4)) ?_
+        rintro b a5 ⟨rfl, hσ5⟩
+        exact (Fwd.pure _ _).mono fun _ _ h => ⟨by rw [h.1]; simp [printType, bangIf, he'], by rw [h.2, hσ5]⟩
+      | false =>
+        simp only [bangIf, Bool.false_eq_true, if_false] at h4
+        rw [Starts.nil_iff] at h4
+        refine Fwd.bind (fwd_skipP_no .bang (by rw [hσ4, h4]; exact hfol)) ?_
+        rintro b a5 ⟨rfl, hσ5⟩
+        exact (Fwd.pure _ _).mono fun _ _ h => ⟨by rw [h.1]; simp [printType, bangIf, he'], by rw [h.2, hσ5, hσ4, h4]⟩
+
+/-! ### variable definitions -/
+
+theorem inv_varDef {ts o : List Tok} (h : D (.nt .variableDefinition) ts o) (hok : TsOK ts) :
+    ∃ v tt ot tdv odv tds ods, ts = tP .dollar :: tName v :: tP .colon :: (tt ++ (tdv ++ tds)) ∧
+      o = tP .dollar :: tName v :: tP .colon :: (ot ++ (odv ++ ods)) ∧ D (.nt .typ) tt ot ∧
+      D (.opt (.nt .defaultValue)) tdv odv ∧ D (.opt (.nt (.directives true))) tds ods := by
+  obtain ⟨t1, t2, o1, o2, rfl, rfl, d1, d2⟩ := h.nt_inv.seq_inv'
+  obtain ⟨t3, t4, o3, o4, rfl, rfl, d3, d4⟩ := d2.seq_inv'
+  obtain ⟨t5, t6, o5, o6, rfl, rfl, d5, d6⟩ := d4.seq_inv'
+  obtain ⟨t7, t8, o7, o8, rfl, rfl, d7, d8⟩ := d6.seq_inv'
+  obtain ⟨s1, s2, p1, p2, rfl, rfl, e1, e2⟩ := d1.nt_inv.seq_inv'
+  obtain ⟨rfl, rfl⟩ := punct_inv e1 hok.left.left rfl
+  obtain ⟨v, rfl, rfl⟩ := name_inv e2
+  obtain ⟨rfl, rfl⟩ := punct_inv d3 hok.right.left rfl
+  exact ⟨v, t5, o5, t7, o7, t8, o8, by simp, by simp, d5, d7, d8⟩
+
+/-- `DefaultValue?`: nothing, or `= Value[Const]` -/
+theorem inv_optDefault {ts o : List Tok} (h : D (.opt (.nt .defaultValue)) ts o) (hok : TsOK ts) :
+    (ts = [] ∧ o = []) ∨ ∃ tv ov, ts = tP .equals :: tv ∧ o = tP .equals :: ov ∧ D (.nt (.value true)) tv ov := by
+  rcases h.opt_inv with h | h
+  · exact .inl h
+  · obtain ⟨t1, t2, o1, o2, rfl, rfl, d1, d2⟩ := h.nt_inv.seq_inv'
+    obtain ⟨rfl, rfl⟩ := punct_inv d1 hok.left rfl
+    exact .inr ⟨t2, o2, rfl, rfl, d2⟩
+
+theorem cpl_varDef (n : Nat) (ts o : List Tok) (hok : TsOK ts) (hd : D (.nt .variableDefinition) ts o) (a : AS) (σ' : Stream)
+    (hs : Starts a.σ ts σ') (hfol : FolVar σ') :
+    Fwd (parseVariableDefinition n) a (fun y a' => printVarDef y = o ∧ a'.σ = σ') := by
+  obtain ⟨f1, f2, f3, f4⟩ := hfol
+  obtain ⟨v, tt, ot, tdv, odv, tds, ods, rfl, rfl, dt, ddv, dds⟩ := inv_varDef hd hok
+  have hs : Starts a.σ ([tP .dollar, tName v] ++ ([tP .colon] ++ (tt ++ (tdv ++ tds)))) σ' := by simpa using hs
+  have hokt : TsOK tt := hok.tail.tail.tail.left
+  have hokdv : TsOK tdv := hok.tail.tail.tail.right.left
+  have hokds : TsOK tds := hok.tail.tail.tail.right.right
+  rw [Starts.append_iff] at hs
+  obtain ⟨σ1, h1, hs⟩ := hs
+  rw [Starts.append_iff] at hs
+  obtain ⟨σ2, h2, hs⟩ := hs
+  rw [Starts.append_iff] at hs
+  obtain ⟨σ3, h3, hs⟩ := hs
+  rw [Starts.append_iff] at hs
+  obtain ⟨σ4, h4, h5⟩ := hs
+  have k5 := h5.firstKind
+  have k5' := firstKind_optDirectives dds hokds σ'.head.kind
+  have hσ4k : σ4.head.kind ≠ .bang ∧ σ4.head.kind ≠ .equals := by
+    rw [k5]; rcases k5' with h | h <;> rw [h]
+    · exact ⟨f1, f2⟩
+    · exact ⟨by decide, by decide⟩
+  unfold parseVariableDefinition
+  refine Fwd.bind (fwd_peekPos _) ?_
+  rintro pos b1 rfl
+  refine Fwd.bind (fwd_parseVariable v h1) ?_
+  rintro x b2 ⟨rfl, hσ2⟩
+  refine Fwd.bind (fwd_punct .colon (by rw [hσ2]; exact h2)) ?_
+  rintro _ b3 hσ3
+  have hdirs : ∀ (b : AS), b.σ = σ4 → Fwd (parseDirectives n true) b (fun ds a' => printDirectives ds = ods ∧ a'.σ = σ') :=
+    fun b hb => cpl_directives true n tds ods hokds dds b σ' (by rw [hb]; exact h5) f3 f4
+  rcases inv_optDefault ddv hokdv with ⟨rfl, rfl⟩ | ⟨tv, ov, rfl, rfl, dv⟩
+  · rw [Starts.nil_iff] at h4
+    subst h4
+    refine Fwd.bind (cpl_type n tt ot hokt dt b3 σ3 (by rw [hσ3]; exact h3) hσ4k.1) ?_
+    rintro ty' b4 ⟨hty, hσ4⟩
+    refine Fwd.bind (fwd_skipP_no .equals (by rw [hσ4]; exact hσ4k.2)) ?_
+    rintro b b5 ⟨rfl, hσ5⟩
+    refine Fwd.ite_neg (by simp) (Fwd.bind (Fwd.pure none _) ?_)
+    rintro dv b6 ⟨rfl, rfl⟩
+    refine Fwd.bind (hdirs _ (by rw [hσ5, hσ4])) ?_
+    rintro ds' b7 ⟨hds, hσ⟩
+    refine (Fwd.pure _ _).mono ?_
+    rintro y b8 ⟨rfl, rfl⟩
+    exact ⟨by simp [printVarDef, printDefault, hty, hds], hσ⟩
+  · obtain ⟨σe, he, hv⟩ := h4.cons_single
+    refine Fwd.bind (cpl_type n tt ot hokt dt b3 σ3 (by rw [hσ3]; exact h3) (by rw [h4.head_kind]; simp [tP])) ?_
+    rintro ty' b4 ⟨hty, hσ4⟩
+    refine Fwd.bind (fwd_skipP_yes .equals (by rw [hσ4]; exact he)) ?_
+    rintro b b5 ⟨rfl, hσ5⟩
+    refine Fwd.ite_pos rfl (Fwd.bind (cpl_value true n tv ov hokdv.tail dv b5 σ4 (by rw [hσ5]; exact hv)) ?_)
+    rintro v' b6 ⟨hv', hσ6⟩
+    refine Fwd.bind (Fwd.pure (Option.some v') _) ?_
+    rintro dv' b7 ⟨rfl, rfl⟩
+    refine Fwd.bind (hdirs _ hσ6) ?_
+    rintro ds' b8 ⟨hds, hσ⟩
+    refine (Fwd.pure _ _).mono ?_
+    rintro y b9 ⟨rfl, rfl⟩
+    exact ⟨by simp [printVarDef, printDefault, hty, hds, hv'], hσ⟩
+
+theorem first_varDef {ts o : List Tok} (h : D (.nt .variableDefinition) ts o) (hok : TsOK ts) : ∃ rest, ts = tP .dollar :: rest := by
+  obtain ⟨v, tt, ot, tdv, odv, tds, ods, e, _⟩ := inv_varDef h hok
+  exact ⟨_, e⟩
+
+theorem printVarDefs_cons {vs : List VarDef} (h : vs ≠ []) :
+    printVarDefs vs = tP .parenL :: vs.flatMap printVarDef ++ [tP .parenR] := by
+  cases vs with
+  | nil => exact absurd rfl h
+  | cons x r => simp [printVarDefs]
+
+/-- `VariableDefinitions?` -/
+theorem cpl_varDefs (n : Nat) (ts o : List Tok) (hok : TsOK ts) (hd : D (.opt (.nt .variableDefinitions)) ts o) (a : AS)
+    (σ' : Stream) (hs : Starts a.σ ts σ') (hfol : σ'.head.kind ≠ .parenL) :
+    Fwd (parseVariableDefinitions n) a (fun vs a' => printVarDefs vs = o ∧ a'.σ = σ') := by
+  unfold parseVariableDefinitions
+  rcases hd.opt_inv with ⟨rfl, rfl⟩ | hd
+  · rw [Starts.nil_iff] at hs
+    refine (fwd_bracket_absent .parenL .parenR n a (by rw [hs]; exact hfol)).2.mono ?_
+    rintro ys a' ⟨rfl, hσ⟩
+    exact ⟨rfl, by rw [hσ, hs]⟩
+  · obtain ⟨parts, hne, rfl, rfl, hp⟩ := inv_block hd.nt_inv hok rfl rfl
+    have hokp : ∀ p ∈ parts, TsOK p.1 := (hok.tail.left).of_flatMap
+    refine ((fwd_bracketG (·.1) (fun (y : VarDef) (p : List Tok × List Tok) => printVarDef y = p.2) FolVar
+      .parenL .parenR parts
+      (fun p hpm a0 σ1 hst hf => cpl_varDef n p.1 p.2 (hokp p hpm) (hp p hpm) a0 σ1 hst hf)
+      (fun p hpm => by
+        obtain ⟨rest, e⟩ := first_varDef (hp p hpm) (hokp p hpm)
+        exact ⟨_, _, e, by simp [tP]⟩)
+      (fun σ1 h => by
+        rcases h with h | ⟨p, hpm, t, rest, hfx, ht⟩
+        · simp [FolVar, h]
+        · obtain ⟨rest', e⟩ := first_varDef (hp p hpm) (hokp p hpm)
+          rw [e] at hfx
+          have : t = tP .dollar := (List.cons.inj hfx).1.symm
+          have hk : σ1.head.kind = .dollar := by rw [← show (Tok.ofToken σ1.head).kind = σ1.head.kind from rfl, ht, this]; rfl
+          simp [FolVar, hk]) n a σ' (tP .parenL) (tP .parenR) rfl rfl (by simpa using hs)).2 hne).mono ?_
+    rintro ys a' ⟨hy, hσ⟩
+    refine ⟨?_, hσ⟩
+    rw [printVarDefs_cons (all₂_ne hy hne), flatMap_forall₂ (P := printVarDef) (g := fun (p : List Tok × List Tok) => p.2) hy]
+
 end Gql.Parser
